@@ -1,7 +1,10 @@
 import Driver.Lb
 import Driver.LbSpec
+import Driver.Srv
 def main (args : List String) : IO UInt32 := do
   match args with
   | ["lb"] => Driver.Lb.main; return 0
   | ["lbspec", ops, impl] => Driver.LbSpec.main ops impl; return 0
+  | ["srv"] => Driver.Srv.main; return 0
+  | ["srvspec", ops, impl] => Driver.Srv.specMain ops impl; return 0
   | _ => IO.eprintln "usage: npdriver lb | lbspec <ops> <impl>"; return 2
